@@ -103,6 +103,56 @@ let () =
   reg "autodec" (fun a -> match a with [c; d] -> fmt_res (auto_decode big_fuel (b c) (bytes_of_hex d)) | _ -> "ERR");
   reg "lzma2dec" (fun a -> match a with [dict; d] -> fmt_res (lzma2_decode (n_of_int (int_of_string dict)) big_fuel (bytes_of_hex d)) | _ -> "ERR")
 
+(* index histories: same token language as harness/drv_index.c *)
+let n_to_dec (x : n) : string =
+  (* decimal via repeated division; values < 2^64 *)
+  let rec go x acc = if x = N0 then acc else
+      let q = N.div x (n_of_int 10) and r = N.modulo x (n_of_int 10) in go q (string_of_int (int_of_n r) ^ acc) in
+  if x = N0 then "0" else go x ""
+let n_of_dec (s : string) : n =
+  let acc = ref N0 in String.iter (fun c -> acc := N.add (N.mul !acc (n_of_int 10)) (n_of_int (Char.code c - 48))) s; !acc
+let blk_str b = String.concat "," (List.map n_to_dec [b.b_stream; b.b_in_stream; b.b_in_file; b.b_comp_file_off; b.b_uncomp_file_off; b.b_unpadded; b.b_uncomp; b.b_total])
+let () =
+  reg "indexhist" (fun toks ->
+    let ix = Array.make 4 None in
+    let out = List.map (fun tok ->
+      let op = tok.[0] in
+      let args = List.map n_of_dec (String.split_on_char ',' (String.sub tok 1 (String.length tok - 1))) in
+      let k = int_of_n (List.hd args) in
+      let a = match args with _ :: a :: _ -> a | _ -> N0 in
+      let b = match args with _ :: _ :: b :: _ -> b | _ -> N0 in
+      if op <> 'i' && ix.(k) = None then "-" else
+      let cur () = match ix.(k) with Some i -> i | None -> m_init in
+      let upd (r, i) = ix.(k) <- Some i; string_of_int (int_of_n r) in
+      match op with
+      | 'i' -> ix.(k) <- Some m_init; "1"
+      | 'r' -> "ok"
+      | 'a' -> upd (m_append (cur ()) a b)
+      | 'f' -> upd (m_stream_flags (cur ()) a)
+      | 'p' -> upd (m_stream_padding (cur ()) a)
+      | 'c' -> let j = int_of_n a in
+        if j > 3 || j = k || ix.(j) = None then "-" else
+        (match ix.(j) with Some src ->
+           let (r, i) = m_cat (cur ()) src in ix.(k) <- Some i; if int_of_n r = 0 then ix.(j) <- None; string_of_int (int_of_n r)
+         | None -> "-")
+      | 'd' -> let j = int_of_n a in if j > 3 || j = k then "-" else (ix.(j) <- ix.(k); "1")
+      | 'q' -> let i = cur () in
+        String.concat "," (List.map n_to_dec [block_count i; stream_count i; m_index_size i; stream_size i; total_size i; file_size i; uncompressed_size i; checks i]) ^ ",1"
+      | 't' -> let i = cur () in let bl = all_blocks i in
+        Printf.sprintf "%d|%d|%d|%d|%s" (List.length bl) (List.length (nonempty_blocks i)) (int_of_n (stream_count i))
+          (List.length bl + List.length (List.filter (fun s -> s.recs = []) i)) (String.concat ";" (List.map blk_str bl))
+      | 'l' -> (match locate (cur ()) a with Some bk -> blk_str bk | None -> "none")
+      | 'e' -> let i = cur () in let bytes = index_encode i in
+        (* decoding the Index field back = appending every record to a fresh single-Stream index *)
+        let (ok, back) = List.fold_left (fun (ok, acc) r -> if not ok then (false, acc) else
+            let (rc, acc') = m_append acc (fst r) (snd r) in (int_of_n rc = 0, acc')) (true, m_init) (List.concat_map (fun s -> s.recs) i) in
+        let hexs = String.concat "" (List.map (fun x -> Printf.sprintf "%02x" (int_of_n x)) bytes) in
+        if ok then Printf.sprintf "0:%s:0:%s:%s" hexs (n_to_dec (block_count back)) (n_to_dec (uncompressed_size back))
+        else Printf.sprintf "0:%s:9:0:0" hexs
+      | 'z' -> ix.(k) <- None; "ok"
+      | _ -> "ERR") toks in
+    String.concat " " out)
+
 (* ---- main loop (keep last) ---- *)
 let () =
   try
